@@ -492,6 +492,15 @@ def text_ops(case):
     return f"{defs}; r = {expr}; r.list(), len(r)"
 
 
+def family(symptom):
+    """extra- / missing- / wrong-combos of one entry point are one family while shrinking (the word is
+    taken from the minimal case)."""
+    for w in ("extra-combos", "missing-combos", "wrong-combos"):
+        if symptom.endswith(":" + w):
+            return symptom[: -len(w)] + "combos"
+    return symptom
+
+
 class Finder:
     """Collects failures of one batch: shrinks the first failure of each (symptom, raw features) class to a
     minimal case, names it by symptom + features of the minimal case, counts the rest."""
@@ -508,12 +517,14 @@ class Finder:
             self.found[self.cache[ck]][2] += 1
             return
 
+        fam = family(symptom)
+
         def still(c):
-            return (guard is None or guard(c)) and any(s == symptom for s, _ in probe(c)[0])
+            return (guard is None or guard(c)) and any(family(s) == fam for s, _ in probe(c)[0])
 
         small = M.shrink(case, still, simplify)
+        symptom, msg2 = next(((s, m) for s, m in probe(small)[0] if family(s) == fam), (symptom, msg))
         sig = symptom if symptom == SIG26 else f"{symptom}/{feat(small)}"
-        msg2 = next((m for s, m in probe(small)[0] if s == symptom), msg)
         self.cache[ck] = sig
         if sig not in self.found:
             self.found[sig] = [msg2, {"repro": text(small), "generated_case": text(case)}, 0]
@@ -577,9 +588,12 @@ def run_single(desc, v, fd):
                 v.count("sweeps_with_empty_dim")
             if lens:
                 keys_out.append(f"S|{lens}|{d}|{optbits(o)}")
-            if sample is None and count % 37 == 5 and len(info["exp"]) >= 2:
+            sampling = (sample is None and lens in ([2, 2, 2], [2, 3, 2]) and o == (0, 1, 0)
+                        and M.dims_class(spec).startswith("zipped"))
+            if sampling:
                 sample = {"sweep": M.to_python(spec), "order_required": M.order_required(spec),
-                          "list()": short(info["got"], 600), "len": len(info["got"])}
+                          "list()": short(info["got"], 700), "len": len(info["got"]),
+                          "reference_list_equal": info["ok_list"]}
             if not info["ok_list"] or not lens:
                 continue
             # ---- filtered_sweep: sweeps without constants / exclude, every non-empty subset of the keys
@@ -595,7 +609,9 @@ def run_single(desc, v, fd):
                             ks.append(derived[rng.randrange(len(derived))])
                             v.count("filtered_with_derived_key")
                         case = {"spec": spec, "keys": ks, "as_tuple": rng.random() < 0.5}
-                        fd.check(case, probe_filtered, simp_filtered, feat_filtered, text_filtered)
+                        _, finfo = fd.check(case, probe_filtered, simp_filtered, feat_filtered, text_filtered)
+                        if sampling and finfo and len(ks) == 2:
+                            sample[f"filtered_sweep({ks}).list()"] = short(finfo["got"], 300)
                         v.count("filtered_sweep_checks")
                         v.count("filtered_with_derivers" if spec["deriv"] else "filtered_without_derivers")
             # ---- count_sweep on a tiny real pipeline over 1..3 of the combination keys
@@ -610,7 +626,9 @@ def run_single(desc, v, fd):
                 modes.append("pandas-sweep" if rng.random() < 0.5 else "pandas-list")
             for mode in modes:
                 case = {"spec": spec, "pl": pl, "mode": mode, "roots": roots, "variant": variant}
-                fd.check(case, probe_count, simp_count, feat_count, text_count)
+                _, cinfo = fd.check(case, probe_count, simp_count, feat_count, text_count)
+                if sampling and cinfo:
+                    sample[f"count_sweep[{mode}]"] = {"call": text_count(case)[:500], "result": short(cinfo["got"], 400)}
                 v.count(f"count_sweep_checks[{mode}]")
     v.classes.add(f"single-n{len(lens)}")
     return keys_out, sample
@@ -648,14 +666,15 @@ def run_pair(desc, v, fd):
                 n += 1
                 ops = [left, right]
                 forms_c = [["add"], [], ["MultiSweep"], [], ["combine"], []][n % 6]
-                _pair_ops(fd, v, ops, ["flat"], forms_c)
+                if not _pair_ops(fd, v, ops, ["flat"], forms_c):
+                    continue
                 v.count("pairs")
                 if trigger26(ops):
                     v.count("pairs_left-dims-none_right-zipped")
                 if left["dims"] is not None and any(len(g) > 1 for g in M.groups_of(left)) and right["dims"] is None:
                     v.count("pairs_left-zipped_right-dims-none")
                 v.count(f"pair_options:{optbits(lo)}x{optbits(ro)}")
-                if sample is None and n % 977 == 11:
+                if sample is None and desc["L"] in (20, 45) and lo == (1, 0, 1) and ro == (0, 1, 1) and len(R[0]) == 2:
                     case = {"ops": ops, "form": "flat"}
                     _, info = probe_product(case)
                     if info and len(info["exp"]) >= 2:
@@ -684,16 +703,17 @@ def run_triple(desc, v, fd):
                for p, (i, o) in enumerate(zip(idx, opts))]
         form = "flat" if t % 3 else "nested"
         forms_c = [["add"], ["MultiSweep"], ["add-right"], ["combine"]][t % 4]
-        _pair_ops(fd, v, ops, [form], forms_c)
+        if not _pair_ops(fd, v, ops, [form], forms_c):
+            continue
         v.count("triples")
         for nm, b in zip(("constants", "derivers", "exclude"), opts[1]):
             if b:
                 v.count(f"triples_middle_with_{nm}[{form}]")
         keys_out.append(f"T|{idx}|{[optbits(o) for o in opts]}|{form}")
-        if sample is None and t == 7:
+        if sample is None and desc["batch"] == 0 and t % 4 and form == "flat" and all(len(pool[i][0]) for i in idx):
             case = {"ops": ops, "form": form}
             _, info = probe_product(case)
-            if info:
+            if info and len(info["exp"]) >= 2:
                 sample = {"product": text_ops(case), "list()": short(info["got"], 500), "reference_len": len(info["exp"])}
     v.classes.add("triples")
     return keys_out, sample
